@@ -4,10 +4,13 @@ import SlotVerif.Proofs.LookupEquiv
 import SlotVerif.Proofs.LookupFind
 import SlotVerif.Proofs.Variants
 import SlotVerif.Proofs.MinKey
+import SlotVerif.Proofs.Add
 /-!
 # C09 — Insertion is canonical: known terms create nothing, lookup agrees with add
 
-`add`'s new-class path is a mutator and is not modelled.  Modelled exactly: `lookup` / `shape` /
+`add`'s new-class path is modelled since session 7 (`Model/Add.lean`: `Snap.addNew`, tied to the code by the `addnew`
+query of the `snap` suite: the model applied to the dump before the insertion must give the dump after it); see the
+last section of this file.  Modelled exactly as well: `lookup` / `shape` /
 `find` on a dumped state (`Model/Snapshot.lean`); they are *pure functions of the dump* by
 construction, which is the model-level content of "lookup never modifies the e-graph" (the only
 mutation the Rust functions perform is union-find path compression; the harness dumps the state
@@ -142,5 +145,37 @@ theorem canonical_key_invariant {s : Snap} {n : Node} (hok : ∀ a ∈ Node.appO
     (hr' : Snap.preShape s (Snap.withApps n (Snap.applyAll (Node.appOcc n) ps0)) = some r') :
     Snap.shapeKey r = Snap.shapeKey r' :=
   Snap.preShape_key_of_variant hok h0 hcan hcan' hr hr'
+
+/-! ### `add` (`Model/Add.lean`) -/
+
+/-- "known terms create nothing": when `lookup` finds the node, `add` does not take the path that allocates a class -/
+theorem known_node_creates_nothing {s : Snap} {n syn : Node} {f2o : SlotMap} {data : String} {x : AppId}
+    (h : Snap.lookup s n = some x) : Snap.addNew s n f2o syn data = none :=
+  Snap.add_hit_creates_nothing h
+
+/-- an insertion that does allocate appends exactly one union-find entry and one class, whose id is the old table length,
+and returns that class applied to a bijection -/
+theorem insertion_allocates_one_class {s s' : Snap} {n syn : Node} {f2o : SlotMap} {data : String} {a : AppId}
+    (h : Snap.addNew s n f2o syn data = some (s', a)) :
+    s'.uf = s.uf ++ [{ id := s.uf.length, m := SlotMap.identity (SlotMap.keys f2o) }] ∧
+    a = { id := s.uf.length, m := f2o } ∧ SlotMap.isBijection f2o = true ∧
+    (∀ j, j ≠ s.uf.length → Snap.cls s' j = Snap.cls s j) := by
+  obtain ⟨_, _, _, _, _, _, ha, _, hb, _⟩ := Snap.addNew_form h
+  exact ⟨Snap.addNew_uf h, ha, hb, fun j hj => Snap.cls_survives_add h hj⟩
+
+/-- **lookup agrees with add**: after an insertion that created a class, `lookup` of the same node finds that class — for every
+state with a well-formed union-find in which no class id lies beyond the table (both checked per run by the `addnew` query).
+`shape` of the node is the same in both states (`shape_ext`: the children resolve as before — `find_survives_add` — and their
+classes are untouched), no old class stores the shape, the new class does. -/
+theorem lookup_agrees_with_add {s s' : Snap} {n syn : Node} {f2o : SlotMap} {data : String} {a : AppId}
+    (hok : Snap.ufOK s = true) (hids : ∀ c ∈ s.classes, c.id ≠ s.uf.length)
+    (h : Snap.addNew s n f2o syn data = some (s', a)) : ∃ m, Snap.lookup s' n = some { id := a.id, m := m } :=
+  Snap.lookup_after_add (Snap.ufOK_sound hok).1 hids h
+
+/-- non-vacuity: on the empty e-graph the node `f2($8, $12)` (variant 7, two slot fields) is a miss; with the fresh slots
+`101, 105` handed in, the model allocates class 0 -/
+example : ((Snap.addNew { uf := [], classes := [] } { v := 7, fields := [.slot 8, .slot 12] } [(101, 8), (105, 12)]
+    { v := 7, fields := [.slot 101, .slot 105] } "-").map (·.2)) = some { id := 0, m := [(101, 8), (105, 12)] } := by
+  decide
 
 end SV.C09
